@@ -51,6 +51,7 @@ def run(chk, tier):
         free_output_lifetimes(chk, prog, c)
         brand_provenance(chk, prog, c)
         root_collect_bound(chk, prog, c)
+        constructors_demand_collect(chk, prog, c)
         common.unsafe_macros(chk, prog, "C12", c)
     res = witness.report(chk, "C12", rule="escape-corpus", floor=80, tier=tier)
     witness.report(chk, "C03", rule="exclusive-access-witness", floor=5, tier=tier)
@@ -295,6 +296,29 @@ def root_collect_bound(chk, prog, c):
                                 m, [p["s"] for p in f["predicates"] if "Collect" in p["s"]]),
                      loc="%s:%s" % (f["span"]["f"], f["span"]["l"]))
     chk.floor("collecting-methods[%s]" % c, n, 3)
+
+
+def constructors_demand_collect(chk, prog, c, rule="constructors-demand-collect-for-every-brand"):
+    """Every way to build an Arena (new, try_new, and map_root / try_map_root for the root type they produce) demands
+    `for<'a> Root<'a>: Collect<'a>`. A root that is Collect at every brand cannot be a type that is only well-formed at
+    the brand 'static (`&'static Gc<'gc, T>`, whose implied bound `'gc: 'static` inside the callbacks lets a
+    `Gc<'static, T>` leave `mutate` as `dyn Any`), and can implement Drop only under the `unsafe_drop` promise (the arena
+    destructs and frees every allocation before it drops its root). The bound on the collecting methods alone does not
+    help: allocating and mutating need no collection."""
+    import re as _re
+    n = 0
+    for m, produced in (("new", "R"), ("try_new", "R"), ("map_root", "R2"), ("try_map_root", "R2")):
+        for f in prog.fn_n.get("arena::Arena::" + m, []):
+            n += 1
+            hr = [p["s"] for p in f["predicates"]
+                  if _re.match(r"^for<(\'\w+)> <%s as arena::Rootable<\1>>::Root: collect::Collect<\1>$" % produced, p["s"])]
+            chk.inst(rule, "arena::Arena::%s[%s]" % (m, c), bool(hr),
+                     detail="`Arena::%s` builds an arena around a root of type `Root<'_, %s>` without requiring it to be "
+                            "Collect for every brand (its Collect predicates: %s): a 'static-only root type turns the brand "
+                            "into 'static inside the callbacks, and a non-Collect root may have a destructor that runs after "
+                            "every allocation has been freed" % (m, produced, [p["s"] for p in f["predicates"] if "Collect" in p["s"]]),
+                     loc="%s:%s" % (f["span"]["f"], f["span"]["l"]))
+    chk.floor("arena-constructors[%s]" % c, n, 4)
 
 
 def static_returns(chk, prog, c):
